@@ -43,6 +43,21 @@ def obligations(tier, seed=0):
                     add(fn=fn, s=s, t=t)
                 for fn in ('<', '>=', '==', 'in'):
                     add(fn=fn, s=s, t=t, entry='op')
+    # seeded random endpoint shapes (deterministic for a given VERIF_SEED)
+    import random
+    rng = random.Random(6000 + int(seed or 0))
+
+    def rnd_iv():
+        k = rng.random()
+        b1, o1 = rng.randint(1, 8), rng.randint(-4, 4)
+        b2, o2 = b1 + rng.randint(0, 3), o1 + rng.randint(0, 3)
+        pats = [[P(b1, o1), P(b2, o2)], [N(b2, o2), N(b1, o1)], [N(b1, o1), P(b2, o2)], [Z, P(b2, o2)], [N(b1, o1), Z], [P(b1, o1), PI], [NI, N(b1, o1)], [NI, P(b1, o1)],
+                [N(b1, o1), PI], [P(b1, o1), P(b1, o1)], [N(b1, o1), N(b1, o1)]]
+        return rng.choice(pats)
+    for _ in range(40 if tier != 'thorough' else 200):
+        s_, t_ = rnd_iv(), rnd_iv()
+        add(fn=rng.choice(['mpi_lt', 'mpi_le', 'mpi_gt', 'mpi_ge']), s=s_, t=t_)
+        add(fn=rng.choice(['<', '<=', '>', '>=', '==', '!=', 'in']), s=s_, t=t_, entry='op')
     # degenerate intervals at an infinity and at zero on either side of every relation and of `in`
     deg = [[PI, PI], [NI, NI], [Z, Z], [P(4, 0), P(4, 0)], [NI, PI], [NI, Z], [Z, PI]]
     for s in deg:
